@@ -31,85 +31,85 @@ PROPS = {
     "C01": {
         "level": "exploration",
         "units": [
-            U("c01", "TestMembership", T(20, 16, 300), T(25, 256, 600)),
+            U("c01", "TestMembership", T(20, 16, 300), T(25, 96, 600)),
         ],
     },
     "C02": {
         "level": "exploration",
         "units": [
-            U("c02", "TestSoundness", T(60, 16, 300), T(100, 240, 900)),
-            U("c02", "TestAutoVerify", T(25, 8, 300), T(40, 160, 600)),
+            U("c02", "TestSoundness", T(60, 16, 300), T(100, 96, 900)),
+            U("c02", "TestAutoVerify", T(25, 8, 300), T(40, 80, 600)),
         ],
     },
     "C03": {
         "level": "exploration",
         "units": [
-            U("c03", "TestConsistency", T(30, 16, 300), T(30, 160, 600)),
+            U("c03", "TestConsistency", T(30, 16, 300), T(30, 80, 600)),
         ],
     },
     "C04": {
         "level": "exploration",
         "units": [
-            U("c04", "TestBalloonVsRef", T(40, 16, 300), T(40, 128, 900)),
-            U("c04", "TestTreesVsRef", T(250, 8, 300), T(400, 128, 900)),
+            U("c04", "TestBalloonVsRef", T(40, 16, 300), T(40, 64, 900)),
+            U("c04", "TestTreesVsRef", T(250, 8, 300), T(400, 64, 900)),
         ],
     },
     "C05": {
         "level": "exploration",
         "units": [
-            U("c05", "TestBalloonDense", T(40, 8, 300), T(60, 160, 600)),
-            U("c05", "TestNodeDense", T(3, 16, 300, shrinktime="60s"), T(5, 128, 900, shrinktime="180s"), needs=["nodeexec"]),
-            U("c05", "TestConcurrentClients", T(4, 16, 300, shrinktime="40s"), T(5, 160, 900, shrinktime="120s"), needs=["nodeexec"]),
-            U("c05", "TestClusterDense", T(1, 8, 400, shrinktime="60s"), T(2, 160, 900, shrinktime="180s"), needs=["nodeexec"]),
+            U("c05", "TestBalloonDense", T(40, 8, 300), T(60, 80, 600)),
+            U("c05", "TestNodeDense", T(3, 16, 300, shrinktime="60s"), T(5, 64, 900, shrinktime="180s"), needs=["nodeexec"]),
+            U("c05", "TestConcurrentClients", T(4, 16, 300, shrinktime="40s"), T(5, 80, 900, shrinktime="120s"), needs=["nodeexec"]),
+            U("c05", "TestClusterDense", T(1, 8, 400, shrinktime="60s"), T(2, 80, 900, shrinktime="180s"), needs=["nodeexec"]),
         ],
     },
     "C06": {
         "level": "exploration",
         "units": [
-            U("c06", "TestReplicas", T(3, 16, 400, shrinktime="60s"), T(4, 160, 1200, shrinktime="240s"), needs=["nodeexec"]),
+            U("c06", "TestReplicas", T(3, 16, 400, shrinktime="60s"), T(4, 80, 1200, shrinktime="240s"), needs=["nodeexec"]),
         ],
     },
     "C09": {
         "level": "exploration",
         "units": [
-            U("c09", "TestStateTransfer", T(2, 12, 400, shrinktime="60s"), T(3, 160, 1200, shrinktime="240s"), needs=["nodeexec"]),
-            U("c09", "TestFetchSnapshotGapRule", T(4, 8, 400, shrinktime="60s"), T(6, 160, 900, shrinktime="180s"), needs=["nodeexec"]),
+            U("c09", "TestStateTransfer", T(2, 12, 400, shrinktime="60s"), T(3, 80, 1200, shrinktime="240s"), needs=["nodeexec"]),
+            U("c09", "TestFetchSnapshotGapRule", T(4, 8, 400, shrinktime="60s"), T(6, 80, 900, shrinktime="180s"), needs=["nodeexec"]),
         ],
     },
     "C07": {
         "level": "fault_enumeration",
         "units": [
-            U("c07", "TestCrashPoints", T(1, 12, 400, shrinktime="90s"), T(1, 192, 900, shrinktime="300s"), needs=["nodeexec"]),
-            U("c07", "TestKillAnytime", T(4, 10, 400, shrinktime="60s"), T(6, 160, 900, shrinktime="200s"), needs=["nodeexec"]),
+            U("c07", "TestCrashPoints", T(1, 12, 400, shrinktime="90s"), T(1, 96, 900, shrinktime="300s"), needs=["nodeexec"]),
+            U("c07", "TestKillAnytime", T(4, 10, 400, shrinktime="60s"), T(6, 80, 900, shrinktime="200s"), needs=["nodeexec"]),
         ],
     },
     "C08": {
         "level": "exploration",
         "units": [
-            U("c08", "TestRocksRestart", T(4, 16, 300, shrinktime="60s"), T(6, 160, 900, shrinktime="180s"), needs=["nodeexec"]),
-            U("c08", "TestFollowerBounce", T(1, 12, 400, shrinktime="60s"), T(3, 128, 1200, shrinktime="200s"), needs=["nodeexec"]),
-            U("c08", "TestBPlusRestart", T(25, 8, 300), T(40, 160, 600)),
+            U("c08", "TestRocksRestart", T(4, 16, 300, shrinktime="60s"), T(6, 80, 900, shrinktime="180s"), needs=["nodeexec"]),
+            U("c08", "TestFollowerBounce", T(1, 12, 400, shrinktime="60s"), T(3, 64, 1200, shrinktime="200s"), needs=["nodeexec"]),
+            U("c08", "TestBPlusRestart", T(25, 8, 300), T(40, 80, 600)),
         ],
     },
     "C16": {
         "level": "exploration",
         "units": [
-            U("c16", "TestBackupRestore", T(5, 16, 400, shrinktime="45s"), T(5, 96, 900, shrinktime="200s"), needs=["nodeexec"]),
-            U("c16", "TestBackupOfReplica", T(1, 10, 400, shrinktime="45s"), T(2, 128, 900, shrinktime="200s"), needs=["nodeexec"]),
+            U("c16", "TestBackupRestore", T(5, 16, 400, shrinktime="45s"), T(5, 48, 900, shrinktime="200s"), needs=["nodeexec"]),
+            U("c16", "TestBackupOfReplica", T(1, 10, 400, shrinktime="45s"), T(2, 64, 900, shrinktime="200s"), needs=["nodeexec"]),
             U("c16", "TestKnownFindings", T(None, 1, 120), T(None, 1, 120), needs=["nodeexec"]),
         ],
     },
     "C10": {
         "level": "exploration",
         "units": [
-            U("c10", "TestGatedApply", T(8, 16, 300, shrinktime="30s"), T(15, 160, 900, shrinktime="120s"), needs=["nodeexec"]),
-            U("c10", "TestRaceStress", T(2, 4, 300, shrinktime="20s"), T(3, 64, 900, shrinktime="60s"), needs=["nodeexec.race"]),
+            U("c10", "TestGatedApply", T(8, 16, 300, shrinktime="30s"), T(15, 80, 900, shrinktime="120s"), needs=["nodeexec"]),
+            U("c10", "TestRaceStress", T(2, 4, 300, shrinktime="20s"), T(3, 32, 900, shrinktime="60s"), needs=["nodeexec.race"]),
         ],
     },
     "C11": {
         "level": "exploration",
         "units": [
-            U("c11", "TestRequests", T(5, 16, 400, shrinktime="60s"), T(5, 128, 900, shrinktime="240s"), needs=["nodeexec"]),
+            U("c11", "TestRequests", T(5, 16, 400, shrinktime="60s"), T(5, 64, 900, shrinktime="240s"), needs=["nodeexec"]),
             U("c11", "TestFuzzCorpus", T(None, 1, 120), T(None, 1, 120)),
             U("c11", "FuzzAPIHandlers", None, T(None, 1, 600, fuzz="180s", cwd=H + "c11", cores=16, fuzzprocs=8), fuzzbuild=True),
             U("c11", "TestReplayFuzz"),
@@ -118,39 +118,39 @@ PROPS = {
     "C17": {
         "level": "exploration",
         "units": [
-            U("c17", "TestSender", T(12, 12, 300), T(25, 128, 600)),
-            U("c17", "TestNodeHandsOver", T(4, 8, 300, shrinktime="30s"), T(6, 160, 600, shrinktime="90s"), needs=["nodeexec"]),
+            U("c17", "TestSender", T(12, 12, 300), T(25, 64, 600)),
+            U("c17", "TestNodeHandsOver", T(4, 8, 300, shrinktime="30s"), T(6, 80, 600, shrinktime="90s"), needs=["nodeexec"]),
         ],
     },
     "C18": {
         "level": "exploration",
         "units": [
-            U("c18", "TestAtMostOnce", T(60, 4, 300), T(100, 128, 600)),
-            U("c18", "TestNetwork", T(5, 8, 300, shrinktime="30s"), T(8, 128, 900, shrinktime="90s")),
-            U("c18", "TestTopologyModel", T(1500, 2, 300), T(3000, 64, 600)),
+            U("c18", "TestAtMostOnce", T(60, 4, 300), T(100, 64, 600)),
+            U("c18", "TestNetwork", T(5, 8, 300, shrinktime="30s"), T(8, 64, 900, shrinktime="90s")),
+            U("c18", "TestTopologyModel", T(1500, 2, 300), T(3000, 32, 600)),
             U("c18", "TestTopologyRace", T(30, 2, 300), T(50, 32, 900), race=True),
         ],
     },
     "C19": {
         "level": "exploration",
         "units": [
-            U("c19", "TestAuditor", T(25, 8, 300), T(40, 160, 600)),
-            U("c19", "TestMonitor", T(25, 6, 300), T(40, 160, 600)),
-            U("c19", "TestPublisher", T(400, 2, 300), T(800, 64, 600)),
+            U("c19", "TestAuditor", T(25, 8, 300), T(40, 80, 600)),
+            U("c19", "TestMonitor", T(25, 6, 300), T(40, 80, 600)),
+            U("c19", "TestPublisher", T(400, 2, 300), T(800, 32, 600)),
         ],
     },
     "C20": {
         "level": "exploration",
         "units": [
-            U("c20", "TestTopology", T(3000, 4, 300), T(6000, 64, 600)),
-            U("c20", "TestClient", T(40, 12, 400, shrinktime="30s"), T(60, 160, 900, shrinktime="120s")),
+            U("c20", "TestTopology", T(3000, 4, 300), T(6000, 32, 600)),
+            U("c20", "TestClient", T(40, 12, 400, shrinktime="30s"), T(60, 80, 900, shrinktime="120s")),
         ],
     },
     "C12": {
         "level": "exploration",
         "units": [
-            U("c12", "TestStructured", T(40, 12, 300), T(60, 160, 600), death_is_violation=True),
-            U("c12", "TestScriptedServer", T(12, 4, 300), T(15, 160, 600), death_is_violation=True),
+            U("c12", "TestStructured", T(40, 12, 300), T(60, 80, 600), death_is_violation=True),
+            U("c12", "TestScriptedServer", T(12, 4, 300), T(15, 80, 600), death_is_violation=True),
             U("c12", "TestCorpus", T(None, 1, 300), T(None, 1, 300)),
             U("c12", "FuzzMembershipAnswer", None, T(None, 1, 600, fuzz="240s", cwd=H + "c12", cores=16), fuzzbuild=True),
             U("c12", "FuzzIncrementalAnswer", None, T(None, 1, 600, fuzz="240s", cwd=H + "c12", cores=16), fuzzbuild=True),
@@ -160,22 +160,22 @@ PROPS = {
     "C14": {
         "level": "exploration",
         "units": [
-            U("c14", "TestBPlus", T(1500, 4, 300), T(3000, 64, 600)),
-            U("c14", "TestRocks", T(25, 12, 300, shrinktime="40s"), T(40, 160, 900, shrinktime="120s"), needs=["nodeexec"]),
+            U("c14", "TestBPlus", T(1500, 4, 300), T(3000, 32, 600)),
+            U("c14", "TestRocks", T(25, 12, 300, shrinktime="40s"), T(40, 80, 900, shrinktime="120s"), needs=["nodeexec"]),
             U("c14", "TestRocksAtomicBatch", T(None, 1, 300), T(None, 1, 900), needs=["nodeexec"]),
         ],
     },
     "C15": {
         "level": "exploration",
         "units": [
-            U("c15", "TestLogStore", T(25, 16, 300, shrinktime="40s"), T(40, 160, 900, shrinktime="120s"), needs=["nodeexec"]),
+            U("c15", "TestLogStore", T(25, 16, 300, shrinktime="40s"), T(40, 80, 900, shrinktime="120s"), needs=["nodeexec"]),
         ],
     },
     "C13": {
         "level": "exploration",
         "units": [
-            U("c13", "TestProofRoundTrip", T(12, 16, 300), T(15, 128, 600)),
-            U("c13", "TestSyntheticRoundTrip", T(1500, 4, 300), T(3000, 64, 600)),
+            U("c13", "TestProofRoundTrip", T(12, 16, 300), T(15, 64, 600)),
+            U("c13", "TestSyntheticRoundTrip", T(1500, 4, 300), T(3000, 32, 600)),
         ],
     },
 }
